@@ -23,10 +23,10 @@ VARLIB_BUILDS = [
     ("SparseMasters", "SparseMasters-"),
 ]
 
-KINDS = ["recompile", "ttx", "ttx", "fea", "fea", "subset", "subset", "instance", "instance", "build", "merge", "scale", "reorder"]
+KINDS = ["recompile", "ttx", "ttx", "fea", "feagen", "feagen", "subset", "subset", "instance", "instance", "build", "merge", "scale", "reorder"]
 
 
-BUILD_KINDS = ["fea", "fea", "fea", "fea", "subset", "subset", "build", "merge", "instance", "instance"]
+BUILD_KINDS = ["fea", "fea", "feagen", "feagen", "feagen", "subset", "subset", "build", "merge", "instance", "instance"]
 
 
 def generate(ctx, r, idx, build_only=False):
@@ -48,6 +48,11 @@ def generate(ctx, r, idx, build_only=False):
                 h["input"] = r.choice(bins)
     if kind == "subset":
         h["recalc_bounds"] = r.random() < 0.5
+    if kind == "feagen":
+        from props import c16_feagen
+
+        h["fea"] = c16_feagen.generate(prng.sub("feagen", h["seed"]))
+        h["level"] = r.choice([0, 0, 5, 9])
     if kind == "fea":
         feas = corpus.fea_files()
         h["input"] = feas[idx % len(feas)] if build_only else r.choice(feas)
@@ -184,7 +189,9 @@ def execute(ctx, h):
                 res["events"].append([h["pipe"], prng.bdigest(out), len(out)])
                 res["probes"]["pipe.ok"] = 1
             except Exception as e:  # a pipeline may legitimately reject an input; it must do so identically everywhere
-                res["events"].append([h["pipe"], "exc", type(e).__name__, str(e).replace(scratch, "<scratch>")[:100]])
+                # (a generated feature file: only the kind of rejection, messages may print sets)
+                msg = "" if h["pipe"] == "feagen" else str(e).replace(scratch, "<scratch>")[:100]
+                res["events"].append([h["pipe"], "exc", type(e).__name__, msg])
                 res["probes"]["pipe.exc." + h["pipe"]] = 1
     finally:
         shutil.rmtree(scratch, ignore_errors=True)
@@ -220,6 +227,13 @@ def run_pipe(h, scratch):
         f = TTFont(io.BytesIO(fea_font()), recalcTimestamp=False)
         f.cfg["fontTools.otlLib.optimize.gpos:COMPRESSION_LEVEL"] = h.get("level", 0)
         addOpenTypeFeatures(f, corpus.path(h["input"]))
+        return _save(f)
+    if kind == "feagen":
+        from fontTools.feaLib.builder import addOpenTypeFeaturesFromString
+
+        f = TTFont(io.BytesIO(fea_font()), recalcTimestamp=False)
+        f.cfg["fontTools.otlLib.optimize.gpos:COMPRESSION_LEVEL"] = h.get("level", 0)
+        addOpenTypeFeaturesFromString(f, h["fea"])
         return _save(f)
     if kind == "subset":
         from fontTools import subset
